@@ -1402,8 +1402,7 @@ class LangServer:
             if file_obj is not None:
                 ast_old = file_obj.ast
                 if ast_old is not None:
-                    for key in ast_old.global_dict:
-                        self.obj_tree.pop(key, None)
+                    self._remove_from_obj_tree(ast_old, filepath)
                 # Nothing may keep referring to the deleted file's objects
                 for _, tmp_file in self.workspace.items():
                     tmp_file.ast.resolve_includes(self.workspace, path=filepath)
@@ -1429,6 +1428,28 @@ class LangServer:
                 file_obj.ast.resolve_links(self.obj_tree, self.link_version)
         if not self.disable_diagnostics:
             self.send_diagnostics(uri)
+
+    def _remove_from_obj_tree(self, ast_old, filepath: str) -> None:
+        """Remove the top-level objects of a previous version of a file from the
+        object tree. A name that (also) belongs to something else keeps or gets
+        back that owner: another file defining it, or the intrinsic module a user
+        module of the same name had replaced."""
+        for key in ast_old.global_dict:
+            entry = self.obj_tree.get(key)
+            if entry is not None and entry[1] == filepath:
+                self.obj_tree.pop(key)
+            if key in self.obj_tree:
+                continue
+            for other_path, other_file in self.workspace.items():
+                if other_path == filepath or other_file.ast is None:
+                    continue
+                if key in other_file.ast.global_dict:
+                    self.obj_tree[key] = [other_file.ast.global_dict[key], other_path]
+            if key in self.obj_tree:
+                continue
+            for module in self.intrinsic_mods:
+                if module.FQSN == key:
+                    self.obj_tree[key] = [module, None]
 
     def update_workspace_file(
         self,
@@ -1469,8 +1490,7 @@ class LangServer:
         # Remove old objects from tree
         ast_old = file_obj.ast
         if ast_old is not None:
-            for key in ast_old.global_dict:
-                self.obj_tree.pop(key, None)
+            self._remove_from_obj_tree(ast_old, filepath)
         # Add new file to workspace
         file_obj.ast = ast_new
         if filepath not in self.workspace:
